@@ -58,7 +58,7 @@ const EXTRA_RUNTIME_ITEMS: [(&'static str, &'static str); 2] = [
     ),
     (
         "b",
-        "function(b){var a=Object.values(b);for(var i=0;i<a.length;i++)if(a[i])return a}",
+        "function(b){var a=Object.values(b);for(var i=0;i<a.length;i++)if(a[i])return b}",
     ),
 ];
 
